@@ -40,7 +40,7 @@ type GuardSpec struct {
 }
 
 type acceptRet struct {
-	ret  *ssa.Return
+	ret   *ssa.Return
 	val   ssa.Value // deciding result value (nil for AcceptAny)
 	kind  AcceptKind
 	deleg []string // statements carried by a delegating return, conditionals resolved (see fillDelegations)
